@@ -157,6 +157,16 @@ def step (st : St) : List String → St × String
           | none => "err notfound"
         ({ st with b := b }, rs ++ " " ++ fmtB b)
       | none => (st, "bad-op")
+  | ["rgflow", keep] =>
+      -- node-level reorganisation: T is looked up through the reference cache, then the chain reorganises
+      -- (reorganizeChain: CleanCache, then T is on the new branch or not), then the same lookup again
+      let db0 : TxDb := [(1, [7])]
+      let q : List In := [⟨1, 0, 0⟩]
+      let r1 := getTxReference db0 [] (Utxo.empty 100000) q
+      let db1 : TxDb := if keep = "1" then db0 else []
+      let r2 := getTxReference db1 [] (cleanCache r1.2) q
+      let f := fun (r : Except RefErr (List Nat)) => match r with | .ok _ => "ok" | .error _ => "err"
+      (st, s!"before={f r1.1} after={f r2.1}")
   | ["s.reset"] => ({ st with s := SendCache.empty }, "ok")
   | ["s.write", id, variant] => match nat? id, nat? variant with
       | some id, some v =>
